@@ -1,6 +1,7 @@
 import AmrK.Scan
 import AmrK.IterLevel
 import AmrK.BoxSelProofs
+import AmrK.Ghost
 /-! # C15 — level iteration yields every box exactly once, whatever the schedule -/
 namespace C15
 open Py Taste Reader ReaderR Scan
@@ -46,5 +47,22 @@ theorem on_demand_order (files : List Bytes) (entries : List (Nat × Nat)) (nf :
   rw [hps] at h
   simp only [hfs] at h
   exact h
+
+/-- **Plotfiles written with ghost cells**: when every FAB on disk is its (valid) box grown by `g` cells in each direction, the
+    scan yields, in disk order, the grown block of every box - each exactly once - and stops at end of file.  The hypotheses are
+    validity of the boxes and the payload sizes only: goodness of the grown FABs is proved (`Ghost.goodFab_grow`), not assumed. -/
+theorem ghost_cells_scan (nf f g : Nat) (hf : f < nf) (eps : List (Entry × Bytes)) (pre : Bytes) (fuel : Nat)
+    (hfuel : eps.length < fuel) (hv : ∀ p ∈ eps, Ghost.ValidBox p.1)
+    (hs : ∀ p ∈ eps, p.2.length = cellsOf (Ghost.grow g p.1) * nf * 8) :
+    scan (pre ++ fileOf nf (eps.map fun p => (Ghost.grow g p.1, p.2))) f fuel pre.length
+      = eps.map fun p => block p.2 (cellsOf (Ghost.grow g p.1)) f :=
+  Ghost.scan_grown nf f g hf eps pre fuel hfuel hv hs
+
+/-- non-vacuity of `ghost_cells_scan`: the 2 x 3 box (0,0)-(1,2) is valid and has 4 x 5 = 20 cells once grown by one -/
+example : Ghost.ValidBox ⟨[0, 0], [1, 2], "Cell_D_00000", 0⟩ ∧ cellsOf (Ghost.grow 1 ⟨[0, 0], [1, 2], "Cell_D_00000", 0⟩) = 20 := by
+  refine ⟨⟨by decide, by decide, ?_⟩, by decide⟩
+  intro p hp
+  simp at hp
+  rcases hp with rfl | rfl <;> decide
 
 end C15
